@@ -392,6 +392,20 @@ class SymTimedelta:
         return self._us / 1000000
 
 
+def isclose(a, b, rtol=1e-05, atol=1e-08, equal_nan=False):
+    """contract of numpy.isclose for finite values: |a - b| <= atol + rtol * |b|, element-wise (forking booleans)"""
+    a, b = np.broadcast_arrays(np.asarray(a, dtype=object), np.asarray(b, dtype=object))
+    out = np.empty(a.shape, dtype=object)
+    for idx in np.ndindex(a.shape):
+        out[idx] = abs(lift(a[idx]) - b[idx]) <= atol + rtol * abs(lift(b[idx]))
+    return out if out.shape else out[()]
+
+
+def allclose(a, b, rtol=1e-05, atol=1e-08, equal_nan=False):
+    r = isclose(a, b, rtol=rtol, atol=atol)
+    return bool(np.all([bool(v) for v in np.asarray(r, dtype=object).ravel()]))
+
+
 def _dispatch(stub, orig):
     def f(*a, **k):
         if any(_has_sym(x) for x in a) or any(_has_sym(x) for x in k.values()):
@@ -413,12 +427,48 @@ def _auto_table():
         (np.linalg.det, det), (sl.det, det), (np.linalg.slogdet, slogdet), (sl.lu_factor, lu_factor), (sl.lu_solve, lu_solve),
         (sl.cho_factor, cho_factor), (sl.cho_solve, cho_solve), (np.isfinite, funcs.isfinite), (np.minimum, funcs.minimum),
         (np.maximum, funcs.maximum), (sp.erf, funcs.erf), (sp.erfcx, funcs.erfcx), (np.logaddexp, funcs.logaddexp),
-        (np.divmod, np_divmod), (datetime.timedelta, SymTimedelta),
+        (np.divmod, np_divmod), (datetime.timedelta, SymTimedelta), (np.isclose, isclose), (np.allclose, allclose),
     ]
     return {id(o): (o, s) for o, s in T}
 
 
 _AUTO = None
+
+
+def _is_intlike(dtype):
+    try:
+        return dtype is bool or (dtype is not None and dtype is not object and np.issubdtype(np.dtype(dtype), np.integer))
+    except TypeError:
+        return False
+
+
+def ofull(shape, fill_value, dtype=None, **kw):
+    if _is_intlike(dtype):
+        return np.full(shape, fill_value, dtype=dtype)
+    a = np.empty(shape, dtype=object)
+    a.fill(lift(fill_value) if not isinstance(fill_value, (SymReal, SymBool)) else fill_value)
+    return a
+
+
+def oones_(shape, dtype=None, **kw):
+    return np.ones(shape, dtype=dtype) if _is_intlike(dtype) else ofull(shape, 1)
+
+
+def _like(fill):
+    def f(a, dtype=None, **kw):
+        a = np.asarray(a)
+        dt = dtype if dtype is not None else a.dtype
+        if _is_intlike(dt):
+            return np.full(a.shape, fill, dtype=dt)
+        return ofull(a.shape, fill)
+    return f
+
+
+def _array_constructors():
+    """working arrays the code allocates and then fills in place must be able to hold symbolic values: object storage
+    unless an integer / boolean dtype is requested (index arrays stay concrete)"""
+    return [(np.zeros, ozeros), (np.ones, oones_), (np.empty, ozeros), (np.full, ofull),
+            (np.zeros_like, _like(0)), (np.ones_like, _like(1)), (np.empty_like, _like(0)), (np.full_like, lambda a, v, dtype=None, **kw: _like(v)(a, dtype))]
 
 
 def autopatch(h, module):
@@ -429,10 +479,14 @@ def autopatch(h, module):
     if _AUTO is None:
         _AUTO = _auto_table()
     names = {}
+    ctors = {id(o): (o, st) for o, st in _array_constructors()}
     for k, v in list(vars(module).items()):
         hit = _AUTO.get(id(v))
         if hit is not None and hit[0] is v:
             names[k] = _dispatch(hit[1], v)
+        hit = ctors.get(id(v))
+        if hit is not None and hit[0] is v:
+            names[k] = hit[1]
     return names
 
 
